@@ -244,13 +244,22 @@ func runProxy(t *testing.T, fx *fixtures, c verifCase, w *bufio.Writer) {
 				}
 				go func() {
 					rec := httptest.NewRecorder()
+					panicked := false
 					func() {
-						defer func() { recover() }()
+						defer func() {
+							if p := recover(); p != nil && p != http.ErrAbortHandler {
+								panicked = true
+							}
+						}()
 						handler.ServeHTTP(rec, req)
 					}()
 					by := rec.Header().Get("X-Mem-Target")
 					if by == "" {
 						by = "-"
+					}
+					if panicked {
+						sched.event(fmt.Sprintf("done %s status=panic by=-", id))
+						return
 					}
 					sched.event(fmt.Sprintf("done %s status=%d by=%s", id, rec.Code, by))
 				}()
